@@ -344,6 +344,8 @@ func recordOfClass(cls string, sep byte, k int) []byte {
 		return fill(4097)
 	case "b70000":
 		return fill(70000)
+	case "m600k": // above half a MiB: the receive buffer a header channel keeps for it exceeds the size it shrinks from
+		return fill(600 << 10)
 	case "m1":
 		return fill(1<<20 + 1)
 	case "m5":
@@ -618,7 +620,7 @@ func TestFrames(t *testing.T) {
 	if which == "C11" {
 		classes := []string{"empty", "nil", "one", "two", "cr", "lf", "nul", "comma", "hasSep", "utf8OfSep", "hibytes", "hdrlike", "b4095", "b4096", "b4097", "b70000"}
 		if thorough {
-			classes = append(classes, "m1", "m5", "m16")
+			classes = append(classes, "m600k", "m1", "m5", "m16")
 		}
 		frs := append(headerFramings(), splitFramings()...)
 		if shard == 0 {
@@ -642,10 +644,12 @@ func TestFrames(t *testing.T) {
 			seqs = append(seqs, []string{classes[rng.IntN(len(classes))], classes[rng.IntN(len(classes))], classes[rng.IntN(len(classes))]})
 		}
 		if thorough {
-			seqs = append(seqs, []string{"m5", "one", "m5", "two"}, []string{"m16", "two"}, []string{"two", "m16"})
+			seqs = append(seqs, []string{"m5", "one", "m5", "two"}, []string{"m16", "two"}, []string{"two", "m16"}, []string{"one", "m600k", "empty", "m600k", "cr"})
 		} else {
 			// the quick tier too crosses the size above which a header channel stops allocating up front, in both directions
 			seqs = append(seqs, []string{"two", "m16"}, []string{"b70000", "m16", "one"}, []string{"m16", "b4097"})
+			// ... and the sizes at which a header channel gives a large receive buffer up again: growing, shrinking, growing
+			seqs = append(seqs, []string{"m600k", "two", "b4097"}, []string{"one", "m600k", "empty", "m600k", "cr"}, []string{"m1", "b70000", "one", "m600k"})
 		}
 		for i, sq := range seqs {
 			if i%nshard != shard {
